@@ -168,6 +168,16 @@ Theorem C04_errdyn2d_is_linearisation : forall s roll pitch heading m y, dom s -
 Proof. exact errdyn2d_is_linearisation. Qed.
 Print Assumptions C04_errdyn2d_is_linearisation.
 
+(** the level hypothesis is necessary: at rest on the equator in free fall (f = 0, so f_D is not -g) with a unit PHI2 error the 2D right-hand side has derivative 0 while the 7-state model predicts the gravity-tilt rate GE_ = 9.78 for DV1, so the conclusion of C04_errdyn2d_is_linearisation fails (known finding no-altitude-vertical-specific-force) *)
+Theorem C04_errdyn2d_nonlevel_refuted :
+  dom s_rest /\ s_VD s_rest = 0 /\ ~ level s_rest m_fall /\
+  is_derive (lin2 nav_rhs_VN s_VN s_rest m_fall y_phi2) 0 0 /\
+  s_VN (pdelta s_rest (lift s_rest (errdynR s_rest 0 0 0 y_phi2))) = GE_ /\
+  ~ is_derive (lin2 nav_rhs_VN s_VN s_rest m_fall y_phi2) 0
+      (s_VN (pdelta s_rest (lift s_rest (errdynR s_rest 0 0 0 y_phi2)))).
+Proof. exact errdyn2d_nonlevel_refuted. Qed.
+Print Assumptions C04_errdyn2d_nonlevel_refuted.
+
 (** the lift is the generated _transform_3d_2d(VN, VE) *)
 Theorem C04_lift_is_T32 : forall s y,
   e0 (lift s y) = T32m (s_VN s) (s_VE s) 0%nat 0%nat * y0 y + T32m (s_VN s) (s_VE s) 0%nat 1%nat * y1 y + T32m (s_VN s) (s_VE s) 0%nat 2%nat * y2 y + T32m (s_VN s) (s_VE s) 0%nat 3%nat * y3 y + T32m (s_VN s) (s_VE s) 0%nat 4%nat * y4 y + T32m (s_VN s) (s_VE s) 0%nat 5%nat * y5 y + T32m (s_VN s) (s_VE s) 0%nat 6%nat * y6 y /\
